@@ -341,8 +341,16 @@ pub fn replay_layouts(layouts: &LayoutSet, protos: &[&str], seed: u64, reps: usi
         }
         let entry = l["layout"]["entry"].as_str().unwrap().to_string();
         let prop = property_of(&entry);
-        for _ in 0 .. reps {
+        for n in 0 ..= reps {
+            // boundary concretisation first: every string as short as its format allows (empty where it may be)
+            if n == 0 {
+                if p == "unreal2str" {
+                    continue; // the string sweep fixes its lengths itself
+                }
+                set_strclass("empty");
+            }
             let b = build(&mut rng, l);
+            set_strclass("");
             let script = script_of(&b);
             let rec = call(&entry, &script, 27015, 0, None);
             rep.evaluations += 1;
